@@ -16,7 +16,7 @@ import ast
 import sympy as sp
 
 from ..core import spelling
-from ..core.astutil import cn, norm, ParentMap
+from ..core.astutil import where_unpack, cn, norm, ParentMap
 from ..core.cfg import CFG
 from ..core.loader import walk_no_nested
 from ..core.pattern import Matcher
@@ -134,11 +134,11 @@ def _module(prog, rep, modname):
     okv = bool(val) and m.match(val[0].test, "tail not in ('both', 'left', 'right')") is not None
     rep.ob('T.tail-strings-validated', f, val[0].test if val else "if tail not in ('both','left','right'): raise", okv, 'unknown tail strings must be rejected at entry', line=f.node.lineno)
     # ---------------- H: thresholds
-    th = [s for s in ast.walk(f.node) if isinstance(s, ast.Assign) and isinstance(s.targets[0], ast.Tuple) and isinstance(s.value, ast.Call) and norm(s.value.func) == 'np.where'
+    th = [s for s in ast.walk(f.node) if where_unpack(s) is not None
           and isinstance(s.value.args[0], ast.Compare) and 'thresh' in norm(s.value.args[0])]
     worker = _find(prog, modname, '_permutation')
     if worker is not None:
-        th += [s for s in ast.walk(worker.node) if isinstance(s, ast.Assign) and isinstance(s.targets[0], ast.Tuple) and isinstance(s.value, ast.Call) and norm(s.value.func) == 'np.where'
+        th += [s for s in ast.walk(worker.node) if where_unpack(s) is not None
                and isinstance(s.value.args[0], ast.Compare) and 'thresh' in norm(s.value.args[0])]
     forms = []
     for s in th:
